@@ -144,6 +144,15 @@ def wf_netlist(netlist, require_references=True):
     w.discover()
     bad = inv_c01(w) + inv_c02(w)
     d = lambda o: describe(w, w.idx(o))
+    s = core.sdn()
+    for i in w.of_kind("W"):
+        wire = w[i]
+        home = wire.cable.definition if wire.cable is not None else None
+        for p in wire.pins:
+            where = p.instance.parent if isinstance(p, s.OuterPin) and p.instance is not None else (
+                p.port.definition if isinstance(p, s.InnerPin) and p.port is not None else None)
+            if home is not None and where is not home:
+                bad.append(("net-crosses-definitions", "%s of %s holds %s which lives in %s" % (d(wire), d(home), d(p), d(where))))
     for i in range(len(w)):
         o, k = w[i], w.kind[i]
         if k == "L" and o.netlist is not netlist:
